@@ -25,6 +25,8 @@
 (*   closed the server closed the connection during the step                *)
 (*   pre, post   INBOX as an IMAP session sees it before / after the step:  *)
 (*          sequence of [uid, id] (id = identity of the message text)       *)
+(*   kmap, kpost  context only, never part of a verdict: the <<uid, MH file  *)
+(*          number>> pairs of INBOX before / after the step                  *)
 (*                                                                         *)
 (* The same definitions judge the steps of the abstract server of module    *)
 (* Pop3 (exhaustively, TLC) and the recorded steps of the real server       *)
@@ -90,7 +92,7 @@ IdsIn(cat, ls) == {i \in 1..Len(cat) : \E j \in 1..Len(ls) : ls[j] = IdLine(cat[
 (*   marks  numbers DELEted (answered +OK) since the last RSET              *)
 (*   sz     number |-> set of sizes STAT/LIST have announced for it         *)
 (*   rd     number |-> set of octet counts RETR has delivered for it         *)
-H0 == [phase |-> "pre", snap |-> <<>>, marks |-> {}, sz |-> <<>>, rd |-> <<>>]
+H0 == [phase |-> "pre", snap |-> <<>>, marks |-> {}, sz |-> <<>>, rd |-> <<>>, kmap |-> <<>>]
 
 L(h) == Len(h.snap)
 Unmarked(h) == {n \in 1..L(h) : n \notin h.marks}
@@ -218,20 +220,21 @@ StepBad(cat, h, e) ==
 (* a discriminating signature of the context of a violated clause:          *)
 (*  - a RETR that announces the size of a message and sends exactly that    *)
 (*    message followed by one empty line before the terminator;             *)
-(*  - INBOX is no longer what it was when the snapshot was taken.           *)
+(*  - the folder (messages or their MH file numbers) is no longer what it   *)
+(*    was when the snapshot was taken.                                      *)
 Sig(cat, h, e, c) ==
     LET extra == /\ e.act = "Retr" /\ c = "C20.SizeAgrees" /\ e.st = "ok"
                  /\ \E i \in 1..Len(cat) : /\ Payload(e) = StuffAll(Canon(cat[i])) \o << <<>> >>
                                             /\ Num(e, 1) = Octets(Canon(cat[i]))
-        moved == h.phase = "open" /\ ~SameBox(e.pre, h.snap)
+        moved == h.phase = "open" /\ e.kmap # h.kmap
     IN e.act \o (IF extra THEN "/extra-empty-line-before-terminator" ELSE "")
-             \o (IF moved THEN "/inbox-changed-since-snapshot" ELSE "")
+             \o (IF moved THEN "/folder-changed-since-snapshot" ELSE "")
 
 (* the history after the step *)
 Advance(h, e) ==
     IF e.act = "Open"
     THEN [phase |-> "open", snap |-> e.pre, marks |-> {}, sz |-> [n \in 1..Len(e.pre) |-> {}],
-          rd |-> [n \in 1..Len(e.pre) |-> {}]]
+          rd |-> [n \in 1..Len(e.pre) |-> {}], kmap |-> e.kpost]
     ELSE IF h.phase # "open" \/ e.act \in {"Imap", "Tick"} THEN h
     ELSE IF e.act \in {"Quit", "Drop"} \/ e.closed THEN [h EXCEPT !.phase = "closed"]
     ELSE IF e.st # "ok" THEN h
